@@ -331,19 +331,20 @@ add(
 # ================= SMT over the compiler's MIR (smt/): table-driven float construction ===========
 # crate "smt": decided by z3/cvc5 on linear integer arithmetic generated from `rustc -Zunpretty=mir`
 # of the scratch copy; `args` go to smt/float_check.py
-SMT_FUNCS = ["sonic_number::parse_float (guards, sign, routing, finiteness check)", "sonic_number::parse_floating_normal_fast", "sonic_number::lemire::full_multiplication",
+SMT_FUNCS = ["sonic_number::parse_float (guards, sign, routing, finiteness check)", "sonic_number::parse_float_fast (one IEEE operation on exact operands)", "sonic_number::parse_floating_normal_fast", "sonic_number::lemire::full_multiplication",
              "sonic_number::lemire::compute_float::<f64> (Eisel-Lemire) for exponents >= -290", "lemire::compute_product_approx", "lemire::power", "BiasedFp::zero_pow2",
              "sonic_number::biased_fp_to_float::<f64>", "POWER_OF_FIVE_128 (from the compiler's allocation dump)", "impl RawFloat for f64 (associated constants, from the MIR)"]
-SMT_CUTS = ["opaque (paths through them are outside the claim and counted): parse_float_fast (f64 arithmetic), slow::parse_long_mantissa, compute_float for exponents < -290 (subnormal results)",
+SMT_CUTS = ["opaque (paths through them are outside the claim and counted): slow::parse_long_mantissa, compute_float for exponents < -290 (subnormal results)",
+            "model: one f64 multiplication/division of exactly known operands returns the double nearest to the exact result (IEEE 754); exactness of an operand (an integer of magnitude <= 2^53, a literal) is proved from the path constraints",
             "assumption: 1 <= significand < 10^19 and trunc == false (what parse_number passes when no digit was dropped)",
             "model: x << leading_zeros(x) as a fresh normalised n with lz free (over-approximation); counterexamples are made exact by pinning lz before replay",
             "dev-profile overflow assertion at `add + 1` (parse_floating_normal_fast bb23) is not decided by either solver and is not claimed"]
-_b = ",".join(str(e) for e in list(range(-312, -299)) + list(range(280, 296)))
+_b = ",".join(str(e) for e in list(range(-312, -299)) + list(range(-24, -20)) + list(range(21, 25)) + list(range(36, 40)) + list(range(280, 296)))
 _s = ",".join(str(e) for e in sorted(set(range(-344, 346, 16)) | set(range(-6, 25))))
 _L = "--lemire=-290..345"
 add(
     H("s_float_fast_bounds", "smt", ["C02", "C07", "C08"], SMT_FUNCS,
-      "decimal exponents -312..=-300 and 280..=295 (both ends of the table-product guard) x every significand 1 <= w < 10^19 x sign; 20 s per query",
+      "decimal exponents -312..=-300 and 280..=295 (both ends of the table-product guard), -24..=-21, 21..=24 and 36..=39 (the ends of the one-operation path) x every significand 1 <= w < 10^19 x sign; 20 s per query",
       stubs=SMT_CUTS, args=["float_check.py", "--exps=" + _b, _L, "--jobs", "6", "--timeout-ms", "20000"], cost=150, timeout=850),
     H("s_float_fast_sampled", "smt", ["C07", "C08"], SMT_FUNCS,
       "every 16th decimal exponent in -344..=344 and all of -6..=24 x every significand 1 <= w < 10^19 x sign; 20 s per query",
